@@ -126,6 +126,54 @@ func (g *Gen) verifyFunction(fn *ssa.Function, sp *FuncSpec) *FnCtx {
 			rnames = append(rnames, sig.Results().At(i).Name())
 		}
 	}
+	// returns taken from inside a loop (dominated by its head, not reachable from its normal exit): `loop N early E`
+	for _, c := range sp.Early {
+		var li *loopInfo
+		for _, l := range fr.loops {
+			if l.ord == c.Loop {
+				li = l
+			}
+		}
+		if li == nil {
+			fc.errs = append(fc.errs, fmt.Sprintf("%s: loop %d early: no such loop", sp.Name, c.Loop))
+			continue
+		}
+		after := map[*ssa.BasicBlock]bool{}
+		var work []*ssa.BasicBlock
+		for _, s2 := range li.head.Succs {
+			if !li.blocks[s2] {
+				work = append(work, s2)
+			}
+		}
+		for len(work) > 0 {
+			x := work[len(work)-1]
+			work = work[:len(work)-1]
+			if after[x] || li.blocks[x] {
+				continue
+			}
+			after[x] = true
+			work = append(work, x.Succs...)
+		}
+		k := 0
+		for _, r := range fr.rets {
+			if r.block == nil || after[r.block] || !(li.head.Dominates(r.block)) {
+				continue
+			}
+			k++
+			env := fr.specEnv(r.state, r.block, nil)
+			env.lookup = func(name string, s2 *State) (Val, bool) { return fr.lookupLocalAt(name, s2, r.block, nil) }
+			for i, v := range r.res {
+				env.names[fmt.Sprintf("result%d", i)] = v
+				if i < len(rnames) && rnames[i] != "" && rnames[i] != "_" {
+					env.names[rnames[i]] = v
+				}
+			}
+			f := env.bool(c.Expr)
+			fc.addObligAt(&Oblig{Name: fmt.Sprintf("%s/early#L%d.%d@b%d", sp.Name, c.Loop, c.Ord, r.block.Index), Kind: "early", Tags: c.Tags,
+				goal: sImp(r.guard, f), Text: c.Text, Spec: c}, r.block, r.seq)
+		}
+		_ = k
+	}
 	if len(fr.rets) > 0 {
 		// one virtual exit: results and state merged over all returns
 		var sts []*State
@@ -440,7 +488,7 @@ func (sp *FuncSpec) allTags() []string {
 	for _, t := range sp.Tags {
 		set[t] = true
 	}
-	for _, cs := range [][]*Clause{sp.Requires, sp.Ensures, sp.Invs, sp.Asserts, sp.Props, sp.Tols, sp.Only, sp.Steps} {
+	for _, cs := range [][]*Clause{sp.Requires, sp.Ensures, sp.Invs, sp.Asserts, sp.Props, sp.Tols, sp.Only, sp.Steps, sp.Early} {
 		for _, c := range cs {
 			for _, t := range c.Tags {
 				set[t] = true
